@@ -2,7 +2,7 @@
    after.  Only the property theorems, non-vacuity examples, Print Assumptions. *)
 From Coq Require Import List ZArith Bool.
 From Model Require Import Orm.
-From Proofs Require Import OrmSpec OrmLazy OrmLog OrmFlush.
+From Proofs Require Import OrmSpec OrmLazy OrmLog OrmFlush OrmInvDirect.
 Import ListNotations.
 Open Scope Z_scope.
 
@@ -63,6 +63,25 @@ Theorem C16_pending_keeps_latest :
   forall (c : nat) (v : val) (p : list (nat * val)), nassoc c (nassoc_set c v p) = Some v.
 Proof. exact setattr_pending_latest. Qed.
 
+(* Inserts and deletes on a lazy class remain immediate (from ANY state): a successful create has sent
+   the INSERT and the row is there; a successful destroySelf has sent exactly the DELETE and the row is gone. *)
+Theorem C16_insert_immediate :
+  forall (cfg : config) (s : st) (kvs : list (nat * val)) (id : Z) (tok : option nat) (s' : st),
+    step cfg s (OCreate Lazy kvs) = (Ret (RObj id tok), s') ->
+    In (SInsert Lazy (sort_cols (map fst (sorted_pending
+         match fill_defaults all_cols (as_dict kvs) with Some kw => kw | None => [] end)))) (log s') /\
+    t_rows (tbl s' Lazy) <> t_rows (tbl s Lazy) /\
+    exists r, In (id, r) (t_rows (tbl s' Lazy)).
+Proof. exact C16_insert_immediate_proof. Qed.
+
+Theorem C16_delete_immediate :
+  forall (cfg : config) (s : st) (h o : nat) (s' : st),
+    nth h (slots s) None = Some o -> i_k (get_inst s o) = Lazy ->
+    step cfg s (ODestroy h) = (Ret RNone, s') ->
+    log s' = [SDelete Lazy (i_id (get_inst s o))] /\
+    assoc (i_id (get_inst s o)) (t_rows (tbl s' Lazy)) = None.
+Proof. exact C16_delete_immediate_proof. Qed.
+
 (* non-vacuity: a reachable state with a held lazy object that has pending values, and what the
    model computes on it *)
 Definition cfg0 := {| doCache := true; cullFreq := 100; cullFrac := 2 |}.
@@ -86,3 +105,5 @@ Print Assumptions C16_no_update_before_flush.
 Print Assumptions C16_flush_exact.
 Print Assumptions C16_lazy_assignment.
 Print Assumptions C16_pending_keeps_latest.
+Print Assumptions C16_insert_immediate.
+Print Assumptions C16_delete_immediate.
